@@ -8,14 +8,13 @@ import os
 import sys
 
 sys.path.insert(0, os.path.join(os.path.dirname(os.path.abspath(__file__))))
-sys.path.insert(0, os.path.join(os.path.dirname(os.path.abspath(__file__)), "components"))
 
 
 def main():
     rc = 0
     for comp, prop in (("locale", "C19"), ("crouter", "C11"), ("thread", "C20"), ("drf", "C15")):
         try:
-            mod = importlib.import_module(comp)
+            mod = importlib.import_module("components." + comp)
             mod.translate(prop, mod.PROPS[prop])
             print("translate_all: %s ok" % comp)
         except Exception as e:      # fails closed: the property's own check reports it
